@@ -51,7 +51,7 @@ def run(c):
         c.count("wfault.judge", stats.get("wfault.cases", 0),
                 sample={"judge": "implementation only (the model has no writer errors): a writer that fails exactly its k-th Write "
                                  "(returning 0 or a short count) and accepts the others, for every k of every encoding with at most "
-                                 "40 (thorough 400) writes: Encode returns an error, or what reached the writer decodes to the value",
+                                 "40 (thorough 120) writes: Encode returns an error, or what reached the writer decodes to the value",
                         "cases": stats.get("wfault.cases", 0)},
                 hist={k: v for k, v in stats.items() if k.startswith("wfault.")})
         c.count("stateful.judge", stats.get("stateful.cases", 0),
